@@ -21,7 +21,7 @@ Binding C (histories): spec/KTableHistory.tla (design + mutants: memo keyed on s
 Configuration dimension (KTableHistory.tla: interp x route x extra, (T, P) position classes; mutants: one family's
       container drops the scheme it is constructed with / ignores the in-place setter): the twin relation is stated
       UNDER a configuration applied identically to both twins.  EX_KTableHistory_cfg.cfg exports the alphabet, realised
-      by harness/fx_c20cfg.py on table objects and fresh models of both families built from pickle AND HDF5 files
+      by harness/fx_c20cfg.py on table objects and forward models of both families built from pickle AND HDF5 files
       through the caches (clause twin_under_configuration, events validated by TLC); history scenarios with a
       `config` setting change it between evaluations of long-lived objects.
 """
@@ -486,7 +486,7 @@ def run_configurations(ctx, log, thorough):
             sw = fc.run(ctx, vecs, root, log, thorough, check=False)      # (self-check: after TLC has validated the events)
         finally:
             fx.reset_all()
-    ctx.note('configuration alphabet: %d exported classes; %d table-object and %d fresh-model twin evaluations under them'
+    ctx.note('configuration alphabet: %d exported classes; %d table-object and %d forward-model twin evaluations under them'
              % (len(vecs), sw.done['table'], sw.done['model']))
     ctx.add_sample(dict(configuration_class=vecs[len(vecs) // 2]))
     return sw
@@ -558,7 +558,7 @@ def run(ctx):
                       configurations='interpolation scheme {linear, exp} x route {GlobalCache key, OpacityCache.set_interpolation, '
                                      'constructor argument, set_interpolation_mode} x {none, memory mode off, second molecule '
                                      'de-activated} x T position {node, between, below, above} x P position (same); containers '
-                                     'pickle and HDF5; table objects, fresh 6-layer models of both families (TemperatureArray '
+                                     'pickle and HDF5; table objects, 6-layer models of both families (TemperatureArray '
                                      'profiles), and 3 of these configurations per history scenario with a config setting')
     ctx.assumptions = ['k-table files: PickleKTable layout written by the harness; pressure grid = layer pressures, values constant in T',
                        'cross-section twin: GridOpacity fixture on the same grid and numbers',
